@@ -578,7 +578,8 @@ def items():
     add("def genExtractPatchesWithSlice %s (cval : α) : Except Err (NDArr α) :=" % PSIG, ".error .index",
         lambda: T13(R(expr=PATCH, ret="{e}", iter_="(Np.iter {it})",
                       stmt=[("$P[$i, $j, :, $a, $b] = $X[:, $c, $d]", "P",
-                             "(Np.assignPatch cval {P} {i} {j} {a} {b} {X} {c} {d})")])).function(
+                             "(Np.assignPatch cval {P} {i} {j} {a} {b} {X} {c} {d})"),
+                            ("$b[:, :, 1, :] = $b[:, :, 0, :] + np.asarray($p)", "b", "(Np.highFromLow {b} {p})")])).function(
             PT.extract_patches_with_slice, PKW, ind=1))
     add("def genSetPatches {α : Type} (dflt : α) (patches : NDArr α) (pixels : Except Err (NDArr α)) (patchcenters : List Pt)\n"
         "    (offset : Int × Int) (offsetindex : Nat) : Except Err (NDArr α) :=", ".error .index",
